@@ -43,7 +43,20 @@ def observe(a):
     if op == "ext":
         out = np.asarray(get_extended_ZF(np.arange(a["n"]), a["size"]))
         return dict(a, src=[int(v) for v in out])
-    if op == "root" and a["given"]:
+    if op == "root-args":
+        kw = {}
+        if a["size"]:
+            kw["size"] = a["size"]
+        if a["given"]:
+            kw["Nzc"] = a["given"]
+        try:
+            r = RootSequence(root_index=a["u"], **kw)
+            return dict(a, out="ok", nzc=int(r.Nzc), len=int(r.size))
+        except Exception as ex:       # the rule of the specification: AttributeError, nothing else
+            return dict(a, out=type(ex).__name__, nzc=0, len=0)
+    if op == "root" and a["given"] and a.get("omit"):
+        root = RootSequence(root_index=a["u"], Nzc=a["given"])              # size omitted: size = Nzc
+    elif op == "root" and a["given"]:
         root = RootSequence(root_index=a["u"], size=a["size"], Nzc=a["given"])
     else:
         root = RootSequence(root_index=a["u"], size=a["size"])
@@ -65,7 +78,21 @@ def observe(a):
 def choose(rng):
     """random arguments outside the alphabets the case families enumerate"""
     from pyphysim.reference_signals.root_sequence import RootSequence
-    op = ["zc", "ext", "root", "root", "ue", "ue"][rng.randint(6)]
+    op = ["zc", "ext", "root", "root", "ue", "ue", "root-args"][rng.randint(7)]
+    if op == "root-args":
+        form = rng.randint(5)
+        size = int(rng.randint(25, 1201))
+        odd = 2 * int(rng.randint(12, 600)) + 1
+        if form == 0:
+            return {"op": op, "size": 0, "given": 0, "u": 1}                        # neither: rejected
+        if form == 1:
+            return {"op": op, "size": 0, "given": odd, "u": int(rng.randint(1, odd))}   # Nzc only
+        if form == 2:
+            return {"op": op, "size": odd, "given": odd, "u": int(rng.randint(1, odd))}  # size == Nzc explicitly
+        if form == 3:
+            g = odd + 2 * int(rng.randint(1, 20))
+            return {"op": op, "size": max(25, odd), "given": max(25, odd) + (g - odd), "u": 1}   # size < Nzc: rejected
+        return {"op": op, "size": max(size, odd), "given": min(size, odd) | 1, "u": 1}
     if op == "zc":
         n = int([2 * rng.randint(1, 31) + 1, 2 * rng.randint(1, 600) + 1, rng.randint(3, 400)][rng.randint(3)])
         return {"op": "zc", "n": n, "u": int(rng.randint(1, n)), "q": int(rng.randint(-3, 4)) * int(rng.randint(2))}
@@ -77,7 +104,9 @@ def choose(rng):
         # explicit base length (any odd length below the size; the extension may wrap several times)
         given = 2 * int(rng.randint(6, max(7, size // 2))) + 1
         given = min(given, size if size % 2 else size - 1)
-        return {"op": "root", "size": size, "u": int(rng.randint(1, given)), "given": given}
+        if rng.randint(3) == 0 and given > 24:
+            return {"op": "root", "size": given, "u": int(rng.randint(1, given)), "given": given, "omit": True}
+        return {"op": "root", "size": size, "u": int(rng.randint(1, given)), "given": given, "omit": False}
     have = RootSequence(root_index=1, size=size).Nzc          # a root index the code accepts for this size
     u = int(rng.randint(1, have))
     if op == "root":
@@ -149,7 +178,10 @@ def run(ctx):
     _, defs = c18.model([], seed=ctx.seed)
     r, first = validate(allt, defs, 31 if th else 19)
     if can is None or len(allt) not in first:
-        raise tlc.TlcError("Trace_ZadoffChu did not reject the canary trace (one exponent moved by one grid step)")
+        raise tlc.TlcError("Trace_ZadoffChu did not reject the canary trace: one logged exponent of one recorded call "
+                           "moved by one grid step must be reported by TLC (binding not live)")
+    ctx.notes["trace_negative_control"] = {"corrupted": "one exponent of one recorded calcBaseZC / RootSequence call + 1 grid step",
+                                           "rejected_by_tlc": True, "clause": first[len(allt)][2]}
     first.pop(len(allt))
     r.violated = None
     ctx.account(r, TRACE_MODULE, f"{len(traces)} recorded traces")
@@ -174,7 +206,7 @@ def replay(ctx, case):
     """re-execute one stored call on the current tree and validate the new observation with TLC"""
     from . import c18
     _, defs = c18.model([], seed=0)
-    args = {k: v for k, v in case["event"].items() if k not in ("e", "t", "src", "nzc", "len", "norm2")}
+    args = {k: v for k, v in case["event"].items() if k not in ("e", "t", "src", "nzc", "len", "norm2", "out")}
     case = dict(case, event=observe(args))
     r, first = validate([{"seed": 0, "ev": [case["event"]]}], defs, 31)
     r.violated = None
